@@ -1030,6 +1030,29 @@ class _FuncAnalysis:
             t[tmp] = t.get(tmp, 0) + c
             return Lin(t, L.c)
 
+        if r is not None and r.k == 'ConditionalOperator' and not is_ptr and len(r.ch) == 3 and not getattr(self, '_in_cond_assign', False):
+            # x = c ? a : b with numbers: x = a where c holds, x = b where it does not, joined (min/max clamps, defaults)
+            cnd = strip(r.ch[0])
+            outs = []
+            self._in_cond_assign = True
+            try:
+                for truth, arm in ((True, r.ch[1]), (False, r.ch[2])):
+                    cf = self.cond_facts(cnd, truth, st) if cnd is not None else None
+                    stc = st
+                    if cf:
+                        fs_ = st.facts
+                        for f_ in cf:
+                            fs_ = self.add(fs_, f_)
+                        stc = State(fs_, st.regions)
+                        if self.entails(stc, Lin.const(-1)):
+                            continue        # this arm cannot be taken here
+                    outs.append(self.assign_var(stc, ref, arm, node))
+            finally:
+                self._in_cond_assign = False
+            if len(outs) == 2:
+                return self.join(outs[0], outs[1])
+            if len(outs) == 1:
+                return outs[0]
         new_facts = []      # Lins over (new x as sym, old x as tmp)
         new_region = None
         X = Lin.sym(sym)
